@@ -556,10 +556,14 @@ class Interp:
                 else:
                     out.d[self.eval(k, env)] = self.eval(v, env)
             return out
-        if isinstance(e, ast.List):
-            return AList([self.eval(x, env) for x in e.elts])
-        if isinstance(e, ast.Tuple):
-            return tuple(self.eval(x, env) for x in e.elts)
+        if isinstance(e, (ast.List, ast.Tuple)):
+            items = []
+            for x in e.elts:
+                if isinstance(x, ast.Starred):
+                    items.extend(self.iterate(self.eval(x.value, env), x))
+                else:
+                    items.append(self.eval(x, env))
+            return AList(items) if isinstance(e, ast.List) else tuple(items)
         if isinstance(e, ast.Set):
             items = [self.eval(x, env) for x in e.elts]
             if not all(isinstance(x, (str, int, float, tuple)) for x in items):
@@ -631,6 +635,10 @@ class Interp:
             key = self.eval(e.slice, env)
             if isinstance(base, ADict):
                 if key not in base.d:
+                    fac = getattr(base, 'default_factory', None)
+                    if fac is not None:
+                        base.d[key] = self.apply(fac, [], e)
+                        return base.d[key]
                     raise RaiseSig('KeyError', (key,), e)
                 return base.d[key]
             if isinstance(base, (AList, str)) and isinstance(key, float):
@@ -771,12 +779,21 @@ class Interp:
         return v
 
     # ------------------------------------------------------------------ calls
+    def eval_args(self, e, env):
+        args = []
+        for a in e.args:
+            if isinstance(a, ast.Starred):
+                args.extend(self.iterate(self.eval(a.value, env), a))
+            else:
+                args.append(self.eval(a, env))
+        return args
+
     def call(self, e, env):
         f = e.func
         args = None
         if isinstance(f, ast.Attribute):
             base = self.eval(f.value, env)
-            args = [self.eval(a, env) for a in e.args]
+            args = self.eval_args(e, env)
             if e.keywords and not (isinstance(base, tuple) and base and base[0] in ('module', 'hostattr')) and not (isinstance(base, AList) and f.attr == 'sort'):
                 self.bad(e, 'keyword arguments in a method call')
             if e.keywords:
@@ -785,9 +802,9 @@ class Interp:
                 self._kwargs = {}
             return self.call_method(base, f.attr, args, e)
         if isinstance(f, ast.Name) and f.id in self.oracles and f.id not in env:
-            return self.oracles[f.id]([self.eval(a, env) for a in e.args], e)
+            return self.oracles[f.id](self.eval_args(e, env), e)
         fn = self.eval(f, env)
-        args = [self.eval(a, env) for a in e.args]
+        args = self.eval_args(e, env)
         kwargs = {}
         for kw in e.keywords:
             if kw.arg is None:
@@ -921,6 +938,12 @@ class Interp:
                     return fn(*args)
                 except (ValueError, OverflowError, TypeError, ZeroDivisionError) as exc:
                     raise RaiseSig(type(exc).__name__, (str(exc),), e)
+        if name == 'collections.defaultdict' and len(args) <= 1:
+            d = ADict({})
+            d.default_factory = args[0] if args else None
+            return d
+        if name == 'collections.OrderedDict' and not args:
+            return ADict({})
         if name == 'functools.partial' and args:
             kw = getattr(self, '_kwargs', {}) or {}
             if kw:
@@ -1043,6 +1066,11 @@ class Interp:
         r = self.method_hook(base, m, args, e)
         if r is not NotImplemented:
             return r
+        if base == ('builtin', 'dict') and m == 'fromkeys' and 1 <= len(args) <= 2:
+            out = ADict({})
+            for k in self.iterate(args[0], e):
+                out.d[k] = args[1] if len(args) > 1 else None
+            return out
         if isinstance(base, tuple) and base and base[0] in ('module', 'hostattr'):
             r = self.host_function(f'{base[1]}.{m}', args, e)
             if r is not NotImplemented:
@@ -1195,6 +1223,8 @@ class Interp:
         self.bad(e, f'method call .{m}() on {type(base).__name__}')
 
     def call_builtin(self, name, args, e):
+        if name in ('list', 'dict') and not args:
+            return AList() if name == 'list' else ADict()
         r = self.builtin_hook(name, args, e)
         if r is not NotImplemented:
             return r
